@@ -235,6 +235,10 @@ impl Exec {
         });
         i.sleeps.iter().map(|s| s.lock().unwrap().deadline).min()
     }
+    /// Has the named task been asked to run again (its waker was invoked) since its current poll began?
+    pub fn task_woken(&self, name: &str) -> bool {
+        self.0.borrow().tasks.iter().find(|t| t.name == name).map(|t| t.flag.0.load(Ordering::SeqCst)).unwrap_or(false)
+    }
     pub fn alive(&self, kind: Kind) -> Vec<String> {
         self.0.borrow().tasks.iter().filter(|t| t.fut.is_some() && t.kind == kind).map(|t| t.name.clone()).collect()
     }
